@@ -172,8 +172,9 @@ def describe_structure(d, builds):
     return f
 
 
-def describe_module(seed, max_renames):
+def describe_module(seed, max_renames, programs=None):
     def f(bad, invariant):
+        bad = dict(bad, program=(programs or {}).get(bad["origin"]))
         occ = bad.get("occ", [])
         suspicious = [dict(o, index=j + 1) for j, o in enumerate(occ)
                       if o["d"] == 0 or o["ru"] or sorted(q + 1 for q, x in enumerate(occ) if x["d"] == o["d"]) != o["r"]][:10]
@@ -369,9 +370,11 @@ def run(tier):
                          "--seed", real_seed, "--builds", "31"], timeout=3000)
             gen_info_real = dict(json.loads(out), available=True)
             grecs = read_ndjson(gpath)
+            programs = {"gen:" + str(p.get("origin", "?")): {k: p[k] for k in ("origin", "sources", "entry", "with_std") if k in p}
+                        for p in read_ndjson(gp)}
             grecs_t = [dict(r, ren=[{k: v for k, v in x.items() if k != "text"} for x in r["ren"]]) for r in grecs]
             fails += judge(d, grecs_t, "ScopeTraceReal.cfg", "realgen", known, stats,
-                           describe_module(real_seed, max(2, T["real_renames"] // 2)))
+                           describe_module(real_seed, max(2, T["real_renames"] // 2), programs))
         else:
             log("[real] vh gen-programs is not available: generated programs skipped")
     except SystemExit:
@@ -430,9 +433,14 @@ def replay(path):
     out_p = os.path.join(d, "real-replay.ndjson")
     if case["origin"].startswith("repo:"):
         vh(["scope-real", "--out", out_p, "--max-renames", case["max_renames"], "--seed", case["seed"], "--modules", case["module"]])
+    elif case.get("program"):
+        gp = os.path.join(d, "replay-prog.ndjson")
+        write_ndjson(gp, [case["program"]])
+        vh(["scope-real", "--no-repo", "--gen", gp, "--out", out_p, "--max-renames", case["max_renames"], "--seed", case["seed"],
+            "--builds", "31"])
     else:
-        log("replay of a generated program: re-run the tier with the same VERIF_SEED")
+        log("the replay file carries no program")
         return 2
-    recs = [dict(r, ren=[{k: v for k, v in x.items() if k != "text"} for x in r["ren"]]) for r in read_ndjson(out_p)]
+    recs = [dict(r, ren=[{k: v for k, v in x.items() if k != "text"} for x in r["ren"]]) for r in read_ndjson(out_p) if r["module"] == case["module"]]
     n = judge(d, recs, "ScopeTraceReal.cfg", "replay", known, stats, describe_module(case["seed"], case["max_renames"]))
     return 1 if n else 0
